@@ -42,19 +42,30 @@ func (g *Gen) funcDecl() *Node {
 			return nil
 		}
 	}
-	g.budget--
-	var f *Node
-	if g.chance(20) {
-		f = g.recursiveFunc(name)
-	} else {
-		f = g.funcLike(fkDecl, name)
+	if g.scope.isEval {
+		// eval code declares into an enclosing (or the global) variable environment: a name that already denotes a function
+		// there would be replaced, and calls "down" to the old function would reach the new one (unbounded recursion)
+		if ob := g.lookup(name); ob != nil && (ob.holds == hFunc || ob.holds == hClass) {
+			return nil
+		}
 	}
+	g.budget--
+	// the binding exists (not yet callable) while the body is generated: a call of this name inside the body would be a
+	// self call, which only recursiveFunc generates (with a depth parameter)
 	var b *gbind
 	if top {
 		b = g.declVar(name, hFunc)
 		b.kind = "func"
 	} else {
 		b = g.declLex(name, "func", hFunc)
+	}
+	b.holds = hFunc
+	b.fn = &gfunc{}
+	var f *Node
+	if g.chance(20) {
+		f = g.recursiveFunc(name)
+	} else {
+		f = g.funcLike(fkDecl, name)
 	}
 	b.holds = hFunc
 	b.fn = g.lastFn
@@ -209,6 +220,10 @@ func (g *Gen) stmt(depth int) []*Node {
 	if !inFn || g.noReturn {
 		w[17] = 0
 	}
+	if inFn && g.fn.derived && g.tryDepth > 0 {
+		// known finding C02-derived-ctor-return-in-try-finally: no return inside a try statement of a derived constructor
+		w[17] = 0
+	}
 	if !inFn || g.off(NoArguments) || !g.argumentsOK() {
 		w[18] = 0
 	}
@@ -231,6 +246,8 @@ func (g *Gen) stmt(depth int) []*Node {
 		wrapPct = 70
 	}
 	if k != 1 && k != 13 && k != 7 && k != 16 && k != 17 && k != 8 && k != 22 && k != 23 && g.chance(wrapPct) {
+		g.tryDepth++
+		defer func() { g.tryDepth-- }()
 		g.inTry++
 		g.push(false)
 		l := g.stmt1(k, depth)
@@ -537,7 +554,10 @@ func (g *Gen) loopVar(kind string) (string, bool) {
 
 func (g *Gen) loopBody(depth int) *Node {
 	g.loops++
+	sCase := g.inCase
+	g.inCase = false
 	b := g.block(1+g.r.Intn(3), depth)
+	g.inCase = sCase
 	g.loops--
 	return b
 }
@@ -711,6 +731,8 @@ func (g *Gen) whileLoop(depth int) []*Node {
 // ---- other compound statements
 
 func (g *Gen) tryStmt(depth int) *Node {
+	g.tryDepth++
+	defer func() { g.tryDepth-- }()
 	n := &Node{K: KTry}
 	form := g.pickW(50, 20, 30) // catch, finally, both
 	if form != 1 {
@@ -842,7 +864,10 @@ func (g *Gen) switchStmt(depth int) *Node {
 		} else {
 			c.A = g.expr(hNum, 1)
 		}
+		sCase := g.inCase
+		g.inCase = true
 		c.L = g.stmtList(1+g.r.Intn(2), depth+1, false)
+		g.inCase = sCase
 		if g.chance(65) {
 			c.L = append(c.L, &Node{K: KBreak})
 		}
@@ -902,6 +927,11 @@ func (g *Gen) jump() *Node {
 		}
 	}
 	j := opts[g.r.Intn(len(opts))]
+	if !g.o.JumpOutOfFinally && (g.fn == nil || g.noReturn) && g.inCase && j.K == KBreak {
+		// known finding C02-switch-nested-break-completion: where completion values are observable a break that leaves a
+		// switch is a direct element of the case list, not nested in an if
+		return j
+	}
 	if g.chance(70) {
 		return If(g.expr(hBool, 2), Block(j), nil)
 	}
@@ -1258,6 +1288,17 @@ func (g *Gen) loopClosures(depth int) []*Node {
 	extra := g.stmtList(g.r.Intn(2), depth+2, false)
 	g.loops--
 	bodyStmts := append([]*Node{store}, extra...)
+	// ways of ending the iteration after the closure exists: the per-iteration copy must happen on each of them
+	switch g.pickW(50, 20, 15, 15) {
+	case 1:
+		bodyStmts = append(bodyStmts, &Node{K: KCont})
+	case 2:
+		bodyStmts = append(bodyStmts, If(Bin("===", Bin("%", Id(v), Num(2)), Num(0)), Block(&Node{K: KCont}), nil), Log(Id(v)))
+	case 3:
+		if !g.off(NoTry) {
+			bodyStmts = append(bodyStmts, &Node{K: KTry, A: Block(&Node{K: KCont}), D: Block(Log(Str("fin")))})
+		}
+	}
 	second := g.chance(25)
 	if second {
 		// a second closure of another form over the same iteration's binding
